@@ -717,9 +717,10 @@ def _verbosity(ctx, col):
         why = "level table == {0:ERROR, 1:WARNING, 2:INFO, 3:DEBUG, 4:TRACE}" if ok else f"level table is {tab}"
     col.add("R20.9", "verbosity_to_loguru_level", m.relpath, fn.lineno, ok, why, text="level table")
     # the table is indexed by the argument itself
-    rets = [n for n in ast.walk(fn) if isinstance(n, ast.Return) and n.value is not None]
-    idx_ok = len(rets) == 1 and isinstance(rets[0].value, ast.Subscript) and isinstance(rets[0].value.value, ast.Dict) \
-        and isinstance(rets[0].value.slice, ast.Name) and rets[0].value.slice.id == fn.args.args[0].arg
+    from .common import returned_expr
+    rv = returned_expr(fn)
+    idx_ok = isinstance(rv, ast.Subscript) and isinstance(rv.value, ast.Dict) \
+        and isinstance(rv.slice, ast.Name) and rv.slice.id == fn.args.args[0].arg
     col.add("R20.9", "verbosity_to_loguru_level", m.relpath, fn.lineno, idx_ok,
             "returns table[verbose]" if idx_ok else "the level is not looked up by the verbosity argument itself", text="table lookup")
     # guards: out-of-range raises ValueError, non-int TypeError; accepted set must be within the table's keys
